@@ -198,9 +198,21 @@ func includeSets() []modset {
 	return []modset{
 		{"include:one", map[string]string{"a": mod("s1"), "s1": sub("s1", "a", " container cs1 { leaf x { type string; } }")}, "ok"},
 		{"include:two", map[string]string{"a": mod("s1", "s2"), "s1": sub("s1", "a", " container cs1 { leaf x { type string; } }"), "s2": sub("s2", "a", " typedef ts { type int8; } container cs2 { leaf y { type ts; } }")}, "ok"},
-		{"include:nested", map[string]string{"a": mod("s1", "s2"), "s1": sub("s1", "a", " container cs1 { leaf x { type string; } }", "s2"), "s2": sub("s2", "a", " grouping gs { leaf z { type string; } }")}, "any"},
-		{"include:cycle", map[string]string{"a": mod("s1", "s2"), "s1": sub("s1", "a", " container cs1;", "s2"), "s2": sub("s2", "a", " container cs2;", "s1")}, "any"},
-		{"include:self", map[string]string{"a": mod("s1"), "s1": sub("s1", "a", " container cs1;", "s1")}, "any"},
+		{"include:nested", map[string]string{"a": mod("s1", "s2"), "s1": sub("s1", "a", " container cs1 { leaf x { type string; } }", "s2"), "s2": sub("s2", "a", " grouping gs { leaf z { type string; } }")}, "ok"},
+		{"include:cycle", map[string]string{"a": mod("s1", "s2"), "s1": sub("s1", "a", " container cs1;", "s2"), "s2": sub("s2", "a", " container cs2;", "s1")}, "error"},
+		{"include:self", map[string]string{"a": mod("s1"), "s1": sub("s1", "a", " container cs1;", "s1")}, "error"},
+		// include cycles among submodules that belong to the module but that the module's own include
+		// statements do not lead to: the compiler attaches every submodule to the module named in its
+		// belongs-to, so these cycles are cycles of the compilation all the same
+		{"include:unreachable-cycle", map[string]string{"a": mod("s1"), "s1": sub("s1", "a", " container cs1;"), "s2": sub("s2", "a", " container cs2;", "s3"), "s3": sub("s3", "a", " container cs3;", "s2")}, "error"},
+		{"include:unreachable-cycle:no-include-at-all", map[string]string{"a": mod(), "s2": sub("s2", "a", " container cs2;", "s3"), "s3": sub("s3", "a", " container cs3;", "s2")}, "error"},
+		{"include:unreachable-self", map[string]string{"a": mod("s1"), "s1": sub("s1", "a", " container cs1;"), "s2": sub("s2", "a", " container cs2;", "s2")}, "error"},
+		{"include:unreachable-cycle3", map[string]string{"a": mod(), "s2": sub("s2", "a", "", "s3"), "s3": sub("s3", "a", "", "s4"), "s4": sub("s4", "a", "", "s2")}, "error"},
+		{"include:unreachable-cycle:groupings-use-each-other", map[string]string{"a": mod("s1"), "s1": sub("s1", "a", " container cs1;"),
+			"s2": sub("s2", "a", " grouping g2 { container c2 { uses g3; } } container t2 { uses g2; }", "s3"), "s3": sub("s3", "a", " grouping g3 { container c3 { uses g2; } }", "s2")}, "error"},
+		{"include:reachable-cycle:groupings-use-each-other", map[string]string{"a": mod("s2"),
+			"s2": sub("s2", "a", " grouping g2 { container c2 { uses g3; } } container t2 { uses g2; }", "s3"), "s3": sub("s3", "a", " grouping g3 { container c3 { uses g2; } }", "s2")}, "error"},
+		{"include:unreachable-acyclic", map[string]string{"a": mod("s1"), "s1": sub("s1", "a", " container cs1;"), "s2": sub("s2", "a", " container cs2 { uses g3; }", "s3"), "s3": sub("s3", "a", " grouping g3 { leaf z { type string; } }")}, "any"},
 		{"include:dangling", map[string]string{"a": mod("nosuch")}, "error"},
 		{"include:wrong-owner", map[string]string{"a": mod("s1"), "s1": sub("s1", "other", " container cs1;")}, "error"},
 		// imports that are written only in a submodule take part in the import graph of the module
